@@ -578,6 +578,7 @@ class Interp:
                 except (KeyError, Unsupported, AttributeError): continue
                 self.assoc_consts[m.group(1) + '::' + ty + '::' + m.group(3)] = name
         self.statics, self.stubs, self.resolve_cache = {}, {}, {}
+        self.stub_patterns = []
         self.depth, self.stack = 0, []
         self.called = set()
         self.models = []
@@ -755,6 +756,9 @@ class Interp:
             vi = self.variant_index(r[1])
             if vi is None:
                 if not r[2]: return self.operand(c_operand(s), frame)
+                if re.match(r'(quick_xml|zip|std::io)::', r[1]):
+                    # constructor of an enum of an external crate that is only passed on to (modelled) code of that crate
+                    return Adt(r[1].rsplit('::', 1)[1], [self.operand(x, frame) for x in r[2]], r[1])
                 raise Unsupported('variant ' + r[1])
             return Adt(vi, [self.operand(x, frame) for x in r[2]], r[1])
         raise Unsupported('rvalue ' + s)
@@ -886,6 +890,8 @@ class Interp:
             self.depth -= 1; self.stack.pop()
     def call2(self, callee, args):
         if callee in self.stubs: return self.stubs[callee](self, *args)
+        for pat, fn in self.stub_patterns:
+            if pat.fullmatch(callee): return fn(self, callee, *args)
         tgt = self.resolve_cache.get(callee)
         if tgt is None:
             tgt = self.resolve(callee)
